@@ -59,3 +59,33 @@ Qed.
 
 Lemma existsb_snoc : forall {A} (f : A -> bool) l x, existsb f (l ++ [x]) = existsb f l || f x.
 Proof. intros. rewrite existsb_app. cbn. rewrite orb_false_r. reflexivity. Qed.
+
+(* ---- the order predicates of the monitor, one label later ----------------------------- *)
+Lemma lab_is_start_inv : forall t l, lab_is_start t l = true -> l = LStart t.
+Proof.
+  intros t l H. destruct l as [t'| | |]; cbn in H; try discriminate. f_equal.
+  destruct t, t'; cbn in H; try discriminate; try (apply Nat.eqb_eq in H; subst; reflexivity).
+  apply andb_true_iff in H. destruct H as [A B]. apply Nat.eqb_eq in A, B. subst. reflexivity.
+Qed.
+
+Lemma fresh_step : forall pre l s k, a_fresh (pre ++ olab l) s k = true ->
+  a_fresh pre s k = true \/ (l = Some (LStart (TEmit k)) /\ o_started pre (TEmit k) = false /\ o_returned pre (TSub s) = true).
+Proof.
+  intros pre l s k H. destruct l as [l|]; [|cbn in H; rewrite app_nil_r in H; left; exact H]. cbn [olab] in H.
+  unfold a_fresh in *. rewrite before_app in H. fold (o_started pre (TEmit k)) in H. destruct (o_started pre (TEmit k)) eqn:S; [left; exact H|].
+  destruct (lab_is_start (TEmit k) l) eqn:L; [|discriminate]. right. apply lab_is_start_inv in L. subst l. auto.
+Qed.
+
+Lemma fresh_mono : forall pre l s k, a_fresh pre s k = true -> a_fresh (pre ++ olab l) s k = true.
+Proof.
+  intros pre l s k H. destruct l as [l|]; [|cbn; rewrite app_nil_r; exact H]. cbn [olab]. unfold a_fresh in *. rewrite before_app.
+  destruct (before_true _ _ _ H) as [_ X]. rewrite X. exact H.
+Qed.
+
+Lemma fresh_returned : forall pre s k, a_fresh pre s k = true -> o_returned pre (TSub s) = true /\ o_started pre (TEmit k) = true.
+Proof. intros pre s k H. apply before_true in H. exact H. Qed.
+
+Lemma started_mono : forall pre l t, o_started pre t = true -> o_started (pre ++ olab l) t = true.
+Proof. intros pre l t H. unfold o_started in *. rewrite existsb_app, H. reflexivity. Qed.
+Lemma returned_mono : forall pre l t, o_returned pre t = true -> o_returned (pre ++ olab l) t = true.
+Proof. intros pre l t H. unfold o_returned in *. rewrite existsb_app, H. reflexivity. Qed.
